@@ -288,6 +288,9 @@ class Ocp(Stage):
 
     def save(self,name):
         self._untranscribe()
+        # An invalidated transcription (edit after a solve) is not 'transcribed' any more,
+        # but its Opti instance is still held by the method objects
+        self._untranscribe_recurse(phase=1)
         import pickle
         with rockit_pickle_context():
             pickle.dump(self,open(name,"wb"))
